@@ -18,6 +18,7 @@ mod diff;
 #[cfg(feature = "std")]
 mod mon_exec;
 mod mon_c06;
+mod mon_soup;
 mod mon_c02;
 mod mon_text;
 mod mon_c20;
@@ -86,6 +87,8 @@ fn main() {
         #[cfg(feature = "std")]
         "C01" | "C03" | "C04" => mon_exec::run(&a.prop.clone(), &a, &mut rep),
         "C06" => mon_c06::run(&a, &mut rep),
+        "C05" => mon_soup::run_c05(&a, &mut rep),
+        "C12" => mon_soup::run_c12(&a, &mut rep),
         "C02" => mon_c02::run(&a, &mut rep, false),
         #[cfg(feature = "std")]
         "C11" => mon_c02::run(&a, &mut rep, true),
